@@ -32,6 +32,18 @@ Interpretation choices (soundness first):
   must equal the chunk's own field through every exporter (Exporter, BatchExporter at every batch size,
   StreamExporter with its running index, the vector-DB records).  Export.tla states this as the invariants
   PositionIndependent / OwnIndex / OrderEquivariant; the variant IndexFrom = "position" is refuted by TLC.
+* Objects keep no state between calls (ExportObj.tla).  Histories of calls run on ONE set of objects: three
+  ChunkCollection receivers, one Exporter, one BatchExporter and one StreamExporter built once (CSV with header,
+  JSONL, header-less TSV) and reused.  Every Filter*/Search chain, the collection's own ToJSONL/ToJSON/ToCSV/ToTSV,
+  the read-only accessors (Statistics, GetAllSections, GetPageRange, ToMarkdown) and every export must (1) return
+  what fresh objects return and (2) leave EVERY receiver as a deep snapshot taken before the history (same chunk
+  pointers, same order, same field values) - also after the caller appends to a filter RESULT's slice.  The
+  documentation does not promise that a result holds copies of the chunks (it holds the same *Chunk values), so
+  no chunk field is modified through a result and no independence of the chunks themselves is asserted.
+  rag.ChunkCollection has no sort or merge operation.  An Exporter's format is fixed at construction, so
+  "several formats in sequence" is exercised through the collection's own To* methods and through collections
+  with different metadata key sets going through one CSV exporter.  Goroutines filtering / exporting one
+  collection run under the Go race detector (driver built with -race); their results must be the sequential ones.
 * Batch size <= 0 (no progress) belongs to C02, not here.  Invalid UTF-8 is not generated (JSON cannot carry it).
 * Every ChunkCollection filter is asserted by its documented meaning (listed in Export.tla above Sat).
   Search(k) "containing a keyword (case-insensitive)" is read as: the lower-cased text contains the lower-cased
@@ -61,7 +73,12 @@ EVIDENCE = dict(
          "by TLC from ExportMC with the expected records computed by Export.tla; each case is run on the real "
          "exporters and parsed back with encoding/json / the validated RFC 4180 reader.  Non-trivial = a collection "
          "with >= 1 adversarial (non-word) token in id/text/title/section/path; distinct by case hash.  Random larger "
-         "collections are validated by ExportTrace.tla.",
+         "collections are validated by ExportTrace.tla.  Objects: every history of <= MaxLen calls over a call alphabet "
+         "(filter chains with/without append-to-result, To* of the collection, read accessors, shared Exporter / "
+         "BatchExporter / StreamExporter on three collections with different key sets) x 3 exporter configurations from "
+         "ExportObjMC, each run on one set of objects and checked call by call against the fresh-object expectation and a "
+         "deep receiver snapshot; random longer histories validated by ExportObjTrace.tla; goroutines on one collection "
+         "under the race detector.",
     assumptions=["field names and column layout of the pinned export schema are the contract (see NOTES)",
                  "list cells in CSV/TSV are only bound when no element contains a comma",
                  "the harness's RFC 4180 reader is trusted after agreeing with Csv.tla on every enumerated input",
@@ -84,12 +101,16 @@ def run(ctx):
     # R1: the RFC 4180 lemma Read(Write(rows)) = rows, negative control: a writer that
     # does not double embedded quotes must be refuted
     # the small independent TLC runs go side by side with the large one (quick tier: wall time is JVM starts)
-    pool = ThreadPoolExecutor(max_workers=5)
+    pool = ThreadPoolExecutor(max_workers=9)
     side = [pool.submit(ctx.tlc, "CsvMC", "Csv_mc_lemma_quick.cfg" if q else "Csv_mc_lemma.cfg", workers=4, timeout=1800, count=False),
             pool.submit(ctx.tlc, "CsvMC", "Csv_mc_bad.cfg", workers=2, expect_violation=True, extra=["-noGenerateSpecTE"]),
             pool.submit(ctx.tlc, "ExportMC", "Export_mc_impl.cfg", workers=2, expect_violation=True, extra=["-noGenerateSpecTE"]),
             # ... and so must the variant that writes a chunk's position in the exported slice for an index of 0
             pool.submit(ctx.tlc, "ExportMC", "Export_mc_impl_index.cfg", workers=2, expect_violation=True, extra=["-noGenerateSpecTE"])]
+    obj = [pool.submit(ctx.tlc, "ExportObjMC", cfg, workers=4, collect=True, timeout=1800, count=False)
+           for cfg in (["ExportObj_mc_quick.cfg"] if q else ["ExportObj_mc_quick.cfg", "ExportObj_mc_full.cfg"])]
+    side += [pool.submit(ctx.tlc, "ExportObjMC", "ExportObj_mc_impl_inplace.cfg", workers=2, expect_violation=True, extra=["-noGenerateSpecTE"]),
+             pool.submit(ctx.tlc, "ExportObjMC", "ExportObj_mc_impl_cache.cfg", workers=2, expect_violation=True, extra=["-noGenerateSpecTE"])]
     big = pool.submit(ctx.tlc, "ExportMC", "Export_mc_quick.cfg" if q else "Export_mc_thorough.cfg", workers=8,
                       collect=True, timeout=3000, jvm="-Xmx12g" if not q else None, count=False)
     # the harness's CSV reader must agree with the automaton on every enumerated input
@@ -109,7 +130,8 @@ def run(ctx):
     exp = big.result()
     done = [f.result() for f in side]          # re-raises a MachineryError of a side run
     pool.shutdown()
-    for r in (exp, done[0]):                   # counted here, in one thread (the controls are not counted)
+    objruns = [f.result() for f in obj]
+    for r in [exp, done[0]] + objruns:         # counted here, in one thread (the controls are not counted)
         ctx.states += r["distinct"]
         ctx.transitions += r["generated"]
     cases = dedupe(exp["cases"])
@@ -171,7 +193,65 @@ def run(ctx):
         nxt = [i for i in range(line, len(ev)) if ev[i]["event"] == "Begin"]
         ev = ev[nxt[0]:] if nxt else []
     ctx.sample({"trace_events": sum(len(r.get("events", [])) for r in rec)})
+    objects(ctx, q, objruns)
     ctx.notes.append(NOTES)
+
+
+def objects(ctx, q, objruns):
+    """Objects with a state across calls (ExportObj.tla): receivers stay unchanged, reused exporters are pure."""
+    import glob, os
+    for n, run in enumerate(objruns):
+        lines = run["cases"]
+        hist = [x for x in lines if x.get("kind") == "history"]
+        if not hist or not any(x.get("kind") == "callspec" for x in lines) or not any(x.get("kind") == "colls" for x in lines):
+            raise vlib.MachineryError("ExportObjMC emitted no histories / call specifications")
+        res = ctx.run_driver(["c14", "objects"], lines)
+        tab = [r for r in res if r.get("clause") == "table"]
+        if tab:
+            raise vlib.MachineryError("the case table of Export.tla disagrees with the Unicode data of the harness: %s" % tab[0].get("what"))
+        absorb(ctx, [r for r in res if r.get("evals")])
+        ctx.extra["object_histories_%d" % n] = len(hist)
+        if n == 0:
+            spec = dict(((x["xc"], x["call"]), x) for x in lines if x.get("kind") == "callspec")
+            h = hist[len(hist) // 2]
+            ctx.sample({"history_on_one_set_of_objects": ["%s(k=%s)" % (spec[(h["xc"], c)]["op"], spec[(h["xc"], c)]["k"]) for c in h["calls"]],
+                        "shared_exporter_format": spec[(h["xc"], h["calls"][0])]["xfmt"]})
+    # random longer histories (one session of collections per request), validated by ExportObjTrace.tla
+    nreq, nseg, ln = (2, 20, 6) if q else (12, 60, 8)
+    rec = ctx.run_driver(["c14", "objrecord"], [{"n": nseg, "len": ln} for _ in range(nreq)])
+    for r in rec:
+        ev = r.get("events", [])
+        if len(ev) < 3:
+            raise vlib.MachineryError("object record driver logged no events")
+        ctx.evaluations += sum(1 for e in ev if e["event"] == "Call")
+        tv = ctx.validate_trace("ExportObjTrace", "ExportObjTrace.cfg", ev)
+        if tv["accepted"]:
+            ctx.traces_validated += sum(1 for e in ev if e["event"] == "Reset")
+            continue
+        line = tv["depth"] + 1          # line 1 (Open) is consumed by the initial state
+        if line < 2 or line > len(ev):
+            raise vlib.MachineryError("object trace validation stopped at an impossible depth %d" % tv["depth"])
+        e = ev[line - 1]
+        start = max(i for i in range(line) if ev[i]["event"] == "Reset")
+        ctx.traces_validated += sum(1 for x in ev[:start] if x["event"] == "Reset")
+        before = ["%s(%s)" % (x.get("op"), x.get("k")) for x in ev[start + 1:line - 1]]
+        ctx.violation("C14:trace-object:%s" % e.get("op"),
+                      "ExportObjTrace rejects call %s(k=%s) after %s on the same objects: %s" % (
+                          e.get("op"), e.get("k"), before,
+                          e.get("err") or e.get("why") or "ids %s header %s" % (vlib.json.dumps(e.get("ids")), vlib.json.dumps(e.get("cols")))),
+                      {"open": ev[0], "trace_segment": ev[start:line], "rejected_line": line})
+    # goroutines on one collection, under the race detector
+    racelog = os.path.join(ctx.scratch, "race14")
+    cres = ctx.run_driver(["c14", "concurrent"], [{"goroutines": 8, "rounds": 150 if q else 1500} for _ in range(2 if q else 8)],
+                          race=True, env={"GORACE": "log_path=%s exitcode=0 halt_on_error=0" % racelog})
+    absorb(ctx, cres)
+    races = glob.glob(racelog + "*")
+    if races:
+        txt = open(races[0]).read()
+        where = [l.strip() for l in txt.splitlines() if "/rag/" in l or "tabula/" in l][:6]
+        ctx.violation("C14:race", "the Go race detector reported a data race between goroutines filtering / exporting one "
+                      "ChunkCollection: %s" % " | ".join(where), {"race_report": txt[:6000]})
+    ctx.extra["concurrent_runs_under_race_detector"] = len(cres)
 
 
 def replay(ctx, rp):
